@@ -28,6 +28,10 @@ CLAIMED = {
          "exploration",
          "Every request kind of the admission table is issued in sampled sessions of every scheme it applies to; the party step must end in Err or abort and emit no commitment, proof or positive decision.",
          "3.11", "only request kinds the statement lists are in the table; in-domain no-abort is the liveness oracle of C01/C06/C11 runs"),
+ "C03": ("deterministic session simulation with a byzantine prover and proof-corruption faults accompanying a claim made false first: every single-component replacement / Option toggle / shape mutation of a proof (IPA rounds log_d +- k, PST13 witness list, Hyrax z, linear-code v / well-formedness / columns / paths through mirror structs), batch proof lists truncated/extended/permuted/duplicated, library prover run on (q, state_q) against commitment(p), foreign commitment state, proofs replayed from other points / commitments, and two targeted linear-code forgeries (columns solved for a false v' with honest paths attached; v interleaved with zeros)",
+         "exploration",
+         "Every item of the attack catalogue is applied to accepted honest transcripts of every scheme; the verifier must not accept any of the resulting false claims. A finite catalogue, not cryptographic soundness.",
+         "3.3", "claims are false by construction (checked against the reference model); forgeries replay the verifier's transcript on a fork of its sponge"),
  "C04": ("deterministic session simulation with bound-metadata faults on in-flight commitments (bound mislabelled on the channel or by a byzantine prover that re-runs the library prover under the other label, label dropped, degree-bound part dropped / swapped with another polynomial's / taken from another bound, label added to an unbounded commitment) plus prover-side admission requests at the boundary (deg = d+1, bound not enforced, keys trimmed without bounds, bound or degree above supported)",
          "exploration",
          "For MarlinKZG10, SonicKZG10 and IPA: an honest transcript re-delivered with any bound fault must not be accepted (exempt only presentations that are bit-identical in distribution to an honest commitment under the presented label: zero polynomial, constant presented without bound, Sonic zero shift); out-of-bound commit/open requests must end in Err/abort.",
